@@ -841,7 +841,8 @@ public:
 
     void run() {
         // header: universe, comparator state, operation profile, way to die (the configuration id was drawn by the caller)
-        static const int UT[16] = {8, 1, 2, 3, 4, 6, 12, 16, 24, 32, 48, 64, 96, 128, 256, 512};
+        // (ordered so that the small byte values favoured by the driver already give very different universes)
+        static const int UT[16] = {8, 64, 3, 24, 1, 256, 12, 96, 2, 32, 6, 128, 4, 16, 48, 512};
         U = UT[src.index(16)];
         unsigned cs = (unsigned)src.index(6);
         shift = ci.stateful() ? cs % 3 : 0;
@@ -922,7 +923,10 @@ void run_property(pbt::Source& src, bool model) {
     Ledger::get().reset();
     AllocLedger::get().reset();
     tlx::set_die_with_exception(true);
-    const ConfigEntry& e = t[src.index(t.size())];
+    // configuration = permuted first byte modulo table size: byte 0 is still entry 0 (simplest), but the small byte
+    // values the driver's generator favours are spread over the whole table instead of hitting its first entries
+    unsigned b = src.u8();
+    const ConfigEntry& e = t[((b * 37u) & 255u) % t.size()];
     static const char* kl[4] = {"kind:set", "kind:multiset", "kind:map", "kind:multimap"};
     static const char* cl[3] = {"cmp:less", "cmp:greater", "cmp:stateful"};
     pbt::label(kl[e.info.kind]);
